@@ -131,6 +131,15 @@ func runCase(c Case, o *ev.Obs) *ev.Failure {
 			req := px.Req{Method: c.Method, Host: org.Addr(), Target: c.Target, Headers: c.ReqHeaders, Body: reqBody, Chunked: c.ReqChunked && c.ReqBodyLen > 0, ReqID: rid}
 			before := org.Len()
 			resp, err := env.Via(c.Transport, req)
+			// the net/http body hand-over artefact (see px.Plain) breaks the upstream read in the middle of the
+			// body; when the origin's answer has no declared length the plain handler then ends the chunked
+			// relay normally and the cut is invisible to px. A body-carrying exchange that delivered a strict
+			// prefix is repeated; a cut that persists is reported
+			for try := 0; try < 2 && err == nil && resp.ReadErr == nil && hasBody && c.Method != "HEAD" &&
+				len(resp.Body) < len(respBody) && bytes.HasPrefix(respBody, resp.Body) && resp.Status == c.Status; try++ {
+				o.Class("repeated-after-upstream-cut")
+				resp, err = env.Via(c.Transport, req)
+			}
 			if p := env.Panics(); p != "" {
 				return ev.Failf("relay.handler-panic", "proxy handler panicked: %s", p)
 			}
